@@ -226,8 +226,16 @@ def _subst(obj, names):
     return obj
 
 
-def annotate_fn(sp, fn, spec, obligations, prefix):
+def annotate_fn(sp, fn, spec, obligations, prefix, probe=None):
     ts = fn.toks
+    skip_probe = spec.get("drop_body") or "#[verifier::external_body]" in spec.get("attrs", [])
+    if skip_probe:
+        probe = None
+    # vacuity probes: an `assert(false)` that MUST fail. probe = {"which": "start" | <loop ordinal>, "tags": [...]}
+    # (one probe per function and variant: a failed assert is assumed afterwards and would mask later probes)
+    if probe is not None and probe["which"] == "start":
+        sp.after_tok(ts[fn.body_open], " assert(false); ", "probe:start:%s" % prefix)
+        probe["tags"].append("probe:start:%s" % prefix)
     names, bind_stmts = role_names(fn)
     need = set(re.findall(r"\$(?:ret|x\d+)", repr(spec)))
     missing = [n for n in need if n not in names]
@@ -258,6 +266,9 @@ def annotate_fn(sp, fn, spec, obligations, prefix):
         lp = loops[k]
         binder = l.get("binder", "it%d" % li)
         first = ts[lp["for"]] if lp["label"] is None else lp["label"]
+        if probe is not None and probe["which"] == li:
+            sp.after_tok(ts[lp["close"]], " assert(false); ", "probe:after-loop:%s.%d" % (prefix, li))
+            probe["tags"].append("probe:after-loop:%s.%d" % (prefix, li))
         if l.get("r5"):
             # R5: `for PAT in EXPR { BODY }` -> the Rust Reference's own definition of `for`
             #     let mut it = IntoIterator::into_iter(EXPR); loop { match it.next() { Some(PAT) => { BODY } None => break } }
@@ -349,8 +360,9 @@ def annotate_fn(sp, fn, spec, obligations, prefix):
         sp.before_tok(ts[fn.body_close - 1] if ts[fn.body_close - 1].kind == "ident" else ts[fn.body_close], spec["before_tail"].strip() + "\n    ", "ghost:before-tail")
 
 
-def build(ctx, unit_name, only=None):
-    """Assemble unit `unit_name` from /verif/contracts/<unit_name>.{py,rs}."""
+def build(ctx, unit_name, only=None, probe=None):
+    """Assemble unit `unit_name` from /verif/contracts/<unit_name>.{py,rs}.
+    probe: a list that receives the tags of the inserted vacuity probes (probe variant of the unit)."""
     tab = load_table(unit_name)
     u = U.Unit(unit_name)
     feats = getattr(tab, "FEATURES", "#![feature(pattern)]")
@@ -380,7 +392,7 @@ def build(ctx, unit_name, only=None):
             continue
         fn = ctx.fn(entry["rel"], entry["name"], entry.get("impl"))
         sp = U.Splice(fn)
-        annotate_fn(sp, fn, entry, obligations, entry["name"])
+        annotate_fn(sp, fn, entry, obligations, entry["name"], probe)
         u.add_splice(sp)
     for lem in getattr(tab, "LEMMAS", []):
         obligations.append(("lemma:%s" % lem[0], lem[1]))
